@@ -318,6 +318,18 @@ def decided_ints(conds, term, before=None):
     return out
 
 
+def norm_cmp(t):
+    """a boolean over totally ordered integers in one spelling: !(a < b) is b <= a, !(a <= b) is b < a"""
+    neg = False
+    while isinstance(t, tuple) and t and t[0] == "not":
+        t, neg = t[1], not neg
+    if neg and t[0] == "cmp" and t[1] == "lt":
+        return ("cmp", "le", t[3], t[2])
+    if neg and t[0] == "cmp" and t[1] == "le":
+        return ("cmp", "lt", t[3], t[2])
+    return ("not", t) if neg else t
+
+
 def order_facts(conds, before=None):
     """ordering facts the decisions of a path establish: [(lo, hi, strict, cond)] meaning lo < hi (strict) or lo <= hi.
     (a lt b)=T: a<b;  (a lt b)=F: b<=a;  (a le b)=T: a<=b;  (a le b)=F: b<a - whichever way the source spelled the test
